@@ -86,3 +86,14 @@ Definition cfg_detail (E : cenv) (cb : callback) : list bool :=
       let have := (seq 0 (c_nparams c) ++ bu_exempt b)%list in
       [reach_ok blocks r; ins_ok blocks r have (in_candidate blocks have); returns_consistent blocks r]
   end.
+
+(* C03: literal spellings.  number: [1; v] | [2; bits] | [0]; string body: 1 :: len :: code points | [0] *)
+From QV Require Import model.Literal.
+Definition number_case (s : list N) : list Z :=
+  match parse_number_str s with
+  | Some (NumInt v) => [1; v]
+  | Some (NumFloat b) => [2; Z.of_N b]
+  | None => [0]
+  end.
+Definition string_case (s : list N) : list Z :=
+  match parse_string s with Some t => 1 :: tk_text t | None => [0] end.
